@@ -43,6 +43,10 @@ type Node struct {
 	Addr   atree.Address
 	Dig    *DigProfile // non-nil: root map with the adversarial digester
 	nid    int
+
+	sorted    []*Entry // cache of sortedEntries (valid while len(sorted) == len(M) and sortedGen == gen)
+	gen       uint64   // bumped by every key insertion / removal
+	sortedGen uint64
 }
 
 type Entry struct {
@@ -134,11 +138,16 @@ func (n *Node) describe(sb *strings.Builder, depth int) {
 
 // sortedEntries returns the map's entries sorted by key string (deterministic iteration for the harness).
 func (n *Node) sortedEntries() []*Entry {
+	if n.sorted != nil && n.sortedGen == n.gen && len(n.sorted) == len(n.M) {
+		return n.sorted
+	}
+	defer func() { n.sortedGen = n.gen }()
 	out := make([]*Entry, 0, len(n.M))
 	for _, e := range n.M {
 		out = append(out, e)
 	}
 	sort.Slice(out, func(i, j int) bool { return keyString(out[i].Key) < keyString(out[j].Key) })
+	n.sorted = out
 	return out
 }
 
